@@ -9,7 +9,7 @@ from hypothesis import strategies as st
 from ECAgent.Core import Model
 from ECAgent.Environments import DiscreteWorld, GridWorld, LineWorld, PositionComponent
 from vf.engine import Violation, InvalidCase
-from vf.fixtures import check, expect_raises, wone_of
+from vf.fixtures import check, expect_raises, with_done, wone_of
 
 PROPERTY = "C10"
 BUDGET = {"quick": 1500, "thorough": 4500}
@@ -39,8 +39,8 @@ class VelocityLike(PositionComponent):
 _worlds = {}
 
 
-def world_for(kind, w, h, d):
-    key = (kind, w, h, d)
+def world_for(kind, w, h, d, done=False):
+    key = (kind, w, h, d, done)
     if key not in _worlds:
         if len(_worlds) > 64:
             _worlds.clear()
@@ -52,6 +52,8 @@ def world_for(kind, w, h, d):
         else:
             env = DiscreteWorld(m, w, h, d)
         table = [tuple(p) for p in env.cells["pos"]]
+        if done:       # the model was marked complete: its grid keeps answering
+            m.complete()
         _worlds[key] = (env, m, table, {p: i for i, p in enumerate(table)})
     return _worlds[key]
 
@@ -65,7 +67,7 @@ def run_case(case):
     cx, cy, cz = (int(v) for v in case["c"])
     cx, cy, cz = cx % ew, cy % eh, cz % ed
     r = abs(int(case["r"]))
-    env, model, table, index = world_for(kind, w, h, d)
+    env, model, table, index = world_for(kind, w, h, d, case.get("done") is not None)
     check(len(table) == ew * eh * ed and len(index) == len(table), "position-table", f"{case}: table has {len(table)} rows")
     cells = [(x, y, z) for z in range(ed) for y in range(eh) for x in range(ew)]
     centre = (cx, cy, cz)
@@ -164,7 +166,7 @@ def run_case(case):
     expect_raises("unknown-rettype-typeerror", TypeError, env.get_neumann_neighbours, centre, r, False, list)
     expect_raises("bad-centre-typeerror", TypeError, env.get_moore_neighbours, [cx, cy, cz], r)
     cubic = len({e for e in (w, h, d) if e > 0}) <= 1
-    labels = ["clipped" if clipped else "unclipped", "cubic" if cubic else "non-cubic", f"r{min(r, 4)}{'+' if r >= 4 else ''}",
+    labels = (["model-completed-then-used"] if case.get("done") is not None else []) + ["clipped" if clipped else "unclipped", "cubic" if cubic else "non-cubic", f"r{min(r, 4)}{'+' if r >= 4 else ''}",
               f"zero-axes-{''.join('0' if e == 0 else 'n' for e in (w, h, d))}"]
     return {"nontrivial": clipped or r >= 2 or not cubic, "labels": labels}
 
@@ -198,7 +200,7 @@ def strategy(tier):
                 c = [draw(st.sampled_from([0, max(w, 1) - 1])), draw(st.sampled_from([0, max(h, 1) - 1])), draw(st.sampled_from([0, max(d, 1) - 1]))]
         frac = [draw(st.integers(0, 11)) for _ in range(3)]
         return {"kind": kind, "w": w, "h": h, "d": d, "c": c, "r": r, "frac": frac}
-    return case()
+    return with_done(case())
 
 
 def _cases(tier):
